@@ -311,7 +311,37 @@ def proposals_with_outcome(ctx, run):
     return out
 
 
+def oracle_c14_deadline(ck, ctx, run):
+    """minimize, minimize-around, minimize-balanced: once a clock reading lies beyond start + limit no test is
+    started; a limit that is set (0 included) is never ignored"""
+    cfg = ctx["cfg"]
+    if cfg.get("limit") is None or not run.seen or run.seen[0][2] != "Y" or run.timeline is None:
+        return
+    ks = [v for kind, v in run.timeline if kind == "K"]
+    tests = [v for kind, v in run.timeline if kind != "K"]
+    if not ks:
+        if len(tests) > 1:
+            ck.violation(f"{ctx['strategy']} with a time limit of {cfg['limit']} s never looked at the clock but ran "
+                         f"{len(tests) - 1} candidate test(s): the limit is not in force",
+                         replay_doc(ctx, run, cfg=cfg))
+        return
+    deadline = ks[0] + cfg["limit"]
+    expired, first = False, True
+    for kind, v in run.timeline:
+        if kind == "K":
+            if first:
+                first = False
+                continue
+            if v > deadline:
+                expired = True
+        elif expired:
+            ck.violation(f"{ctx['strategy']}: test {v} started after a clock reading beyond the deadline {deadline}",
+                         replay_doc(ctx, run, cfg=cfg))
+            return
+
+
 def oracle_c14(ck, ctx, run):
+    oracle_c14_deadline(ck, ctx, run)
     if ctx["strategy"] != "minimize" or not run.seen or run.seen[0][2] != "Y":
         return
     cfg = ctx["cfg"]
@@ -357,22 +387,6 @@ def oracle_c14(ck, ctx, run):
         if not remainder:
             prev_size = size
         prev_e = e if outcome != "Y" else s
-    # deadline: once a reading exceeds the deadline no test may follow
-    if cfg.get("limit") is not None and run.timeline:
-        ks = [v for kind, v in run.timeline if kind == "K"]
-        if ks:
-            deadline = ks[0] + cfg["limit"]
-            expired = False
-            first = True
-            for kind, v in run.timeline:
-                if kind == "K":
-                    if first:
-                        first = False
-                        continue
-                    if v > deadline:
-                        expired = True
-                elif expired:
-                    return bad(f"test {v} started after a clock reading beyond the deadline {deadline}")
 
 
 def make_oracle_c03(f_of):
